@@ -309,6 +309,17 @@ def run(ctx: Ctx):
                          f"a value set on the attribute is written as {entry.name}", rule="C03-R11")
     ctx.rules["C03-R11"]["nontrivial"] |= {f"{ci.name}" for ci in classes_with_defs}
 
+    # ---- R13/R14: what is encoded is what the attributes hold now; Time values survive -------
+    from .common_codec import as_bytes_encodes_current
+    as_bytes_encodes_current(ctx, "C03-R13")
+    from .common_node import received_chunks_are_immutable_bytes
+    received_chunks_are_immutable_bytes(ctx, "C03-R15")
+    from . import c01 as _c01
+    ctx.include(_c01.run, {"C01-R5"}, "C03-R14",
+                "a Time attribute that was set is restored by decoding: the Time getter and setter "
+                "use the same epoch constants, era rule and time-zone convention", floor=3,
+                constructs=lambda c: c.startswith("AvpTime") and "encode-range" not in c)
+
     # ---- R8: constructor ordering -----------------------------------------
     ctx.rule("C03-R8", "constructor ordering in every typed Request/Answer class: "
                        "super().__post_init__() < list defaults < assign_attr_from_defs(self, "
